@@ -29,7 +29,7 @@ for rnd, inc in (("1", "_incoming"), ("2", "_incoming2"), ("3", "_incoming3"), (
     if not os.path.isdir(base):
         continue
     for p in sorted(os.listdir(base)):
-        for i in ("1", "2"):
+        for i in ("1", "2", "3"):
             src = os.path.join(base, p, "change%s.diff" % i)
             if not os.path.exists(src):
                 continue
